@@ -426,6 +426,12 @@ pub fn drive(vectors: &str, seed: u64, out: &str, thorough: bool) {
     (2, "if $A: $B", "if not $A: $B", "if a:\n    b()\nelse:\n    c()\n"),
     (3, "if $A { $$$B }", "if !$A { $$$B }", "fn main() {\nif a { b(); } else { c(); }\n}\n"),
     (0, "try { $$$A }", "try { g(); $$$A }", "try { f(); } catch (e) { h(); } finally { k(); }\n"),
+    // a rewrite on several lines, with and without variables, at an indented site: every front end shifts its
+    // continuation lines to the site
+    (0, "foo($A)", "bar(\n  1,\n  2\n)", "function f() {\n  if (x) {\n    foo(0)\n  }\n}\n"),
+    (0, "foo($A)", "bar(\n  $A,\n  2\n)", "function f() {\n  if (x) {\n    foo(0)\n  }\n}\n"),
+    (2, "foo($A)", "bar(\n  1,\n  2\n)", "def f():\n    if x:\n        foo(0)\n"),
+    (3, "foo($A)", "bar(\n  1,\n  2\n)", "fn main() {\n    if x {\n        foo(0);\n    }\n}\n"),
   ];
   for (ti, (li, p, r, t)) in tails.iter().enumerate() {
     run_cases.push((format!("c08-tail{ti}"), *li, *p, *r, t.to_string()));
